@@ -33,8 +33,12 @@ ASSUMPTIONS = ['A-GZIP: Python gzip/zlib decompress a (multi-member) gzip/BGZF f
                'payloads and file.read(n) returns n bytes unless the stream ends (BGZF framing is not modelled)',
                'the BAM header text is passed through uninterpreted',
                '"none" for an unmapped record is accepted as the name "*" or the empty name']
-PARTIAL = ['C16_decode_fields_partial: field decoding proved for n_cigar_op < 16384 (uint16 overflow of n_cigar_op*4 at HEAD)',
-           'C16_chrom_partial: reference name proved for mapped records only (names[-1] at HEAD)']
+PARTIAL = ['C16_decode_fields_partial / C16_reference_interval_partial: code at HEAD, proved for n_cigar_op < 16384 '
+           '(uint16 overflow of n_cigar_op*4; refuted beyond by C16_decode_fields_refuted)',
+           'C16_reference_name_partial: code at HEAD, proved for mapped records only (names[-1]; refuted for refID -1 by '
+           'C16_reference_name_refuted)',
+           'C16_model_satisfies_spec_partial: whole property for the code at HEAD under both guards; the unguarded '
+           'C16_model_satisfies_spec is about the repaired variant (notes/C16.fix-1.diff, fix-2.diff)']
 PER_FILE = 16
 EOF_MARKER = bytes.fromhex('1f8b08040000000000ff0600424302001b0003000000000000000000')
 SEQ_LETTERS = '=ACMGRSVTWYHKDBN'
